@@ -258,7 +258,7 @@ func Diff(ref, got *Result, exact bool) (symptom, detail string) {
 		return "", ""
 	}
 	if rf && !gf {
-		return "err:engine-ok/ref-err", "reference: " + ref.Err + ref.CreateErr
+		return "err:engine-ok/ref-err:" + RefErrClass(ref.Err+ref.CreateErr), "reference: " + ref.Err + ref.CreateErr
 	}
 	if !rf && gf {
 		return "err:engine-err/ref-ok", "engine: " + got.Err + got.CreateErr
@@ -349,4 +349,24 @@ func classifyExtra(ref, got *Result, j int) string {
 		return "labels"
 	}
 	return "extra-series"
+}
+
+// RefErrClass buckets the reference engine's error messages (only the class is
+// compared, messages embed map-order-dependent text).
+func RefErrClass(msg string) string {
+	switch {
+	case strings.Contains(msg, "many-to-one matching must be explicit"):
+		return "many-to-one"
+	case strings.Contains(msg, "found duplicate series for the match group"):
+		return "dup-series"
+	case strings.Contains(msg, "grouping labels must ensure unique matches"):
+		return "grouping-unique"
+	case strings.Contains(msg, "overflows int64"):
+		return "k-overflow"
+	case strings.Contains(msg, "same labelset"):
+		return "same-labelset"
+	case strings.Contains(msg, "mstore: injected"):
+		return "injected"
+	}
+	return "other"
 }
